@@ -52,7 +52,7 @@ for pid in sorted(counts):
 fill("summary", "\n".join(rows))
 # seeds
 out = []
-for rnd, pat, head in [(1, "C??-[ab]", "Round 1 (not independent of the rules, see above)"), (2, "C??-[cd]", "Round 2 (requested after all checks existed)"), (3, "C??-[ef]", "Round 3 (requested after the round-2 strengthening; `before` = checker frozen before the agents started)"), (4, "C??-[gh]", "Round 4 (requested after the round-3 strengthening and the mutation-survey rules; `before` = checker frozen at 5d70da5)"), (5, "C??-[ij]", "Round 5 (requested after the round-4 strengthening; `before` = checker frozen at 7a4f052)"), (6, "C??-[kl]", "Round 6 (requested after the round-5 strengthening: layer sharing and generated tables; `before` = checker frozen at 81f416d)"), (7, "C??-[mn]", "Round 7 (tables scoped to anchored functions; `before` = checker frozen at def8b66)"), (8, "C??-[op]", "Round 8 (`before` = checker frozen at 666c15e)"), (9, "C??-[qr]", "Round 9 (`before` = checker frozen at 2812b0e)"), (10, "C??-[st]", "Round 10 (`before` = checker frozen at 10f3e0c)"), (11, "C??-[uv]", "Round 11 (`before` = checker frozen at 6775069)"), (12, "C??-[wx]", "Round 12 (the agents were asked to prefer wiring, templates, scripts, helper packages and the legacy runtime; `before` = checker frozen at 746f252)"), (13, "C??-[yz]", "Round 13 (the agents were asked for changes that read as modernising refactors; `before` = checker frozen at caedceb)")]:
+for rnd, pat, head in [(1, "C??-[ab]", "Round 1 (not independent of the rules, see above)"), (2, "C??-[cd]", "Round 2 (requested after all checks existed)"), (3, "C??-[ef]", "Round 3 (requested after the round-2 strengthening; `before` = checker frozen before the agents started)"), (4, "C??-[gh]", "Round 4 (requested after the round-3 strengthening and the mutation-survey rules; `before` = checker frozen at 5d70da5)"), (5, "C??-[ij]", "Round 5 (requested after the round-4 strengthening; `before` = checker frozen at 7a4f052)"), (6, "C??-[kl]", "Round 6 (requested after the round-5 strengthening: layer sharing and generated tables; `before` = checker frozen at 81f416d)"), (7, "C??-[mn]", "Round 7 (tables scoped to anchored functions; `before` = checker frozen at def8b66)"), (8, "C??-[op]", "Round 8 (`before` = checker frozen at 666c15e)"), (9, "C??-[qr]", "Round 9 (`before` = checker frozen at 2812b0e)"), (10, "C??-[st]", "Round 10 (`before` = checker frozen at 10f3e0c)"), (11, "C??-[uv]", "Round 11 (`before` = checker frozen at 6775069)"), (12, "C??-[wx]", "Round 12 (the agents were asked to prefer wiring, templates, scripts, helper packages and the legacy runtime; `before` = checker frozen at 746f252)"), (13, "C??-[yz]", "Round 13 (the agents were asked for changes that read as modernising refactors; `before` = checker frozen at caedceb)"), (14, "C??-[12]", "Round 14 (the agents were asked for changes in error paths, fault handling and concurrency; `before` = checker frozen at a0e7e8a)")]:
     out.append("**%s**\n" % head)
     if rnd == 1:
         out.append("| id | change (summary by its author) | needs | caught by |")
